@@ -27,12 +27,15 @@ def main():
     src = f'/tmp/seed2/{pid}.out/{var}'
     if '--src' in sys.argv:
         src = sys.argv[sys.argv.index('--src') + 1]
+    src = os.path.abspath(src)
     wt = f'/tmp/evalh_{pid}_{var}'
     run(['git', '-C', '/repo', 'worktree', 'remove', '--force', wt])
     run(['git', '-C', '/repo', 'worktree', 'add', '-q', '--detach', wt, 'HEAD'])
     res = {'property': pid, 'variant': var, 'kind': 'harmless'}
     try:
         rc, out = run(['git', '-C', wt, 'apply', os.path.join(src, 'patch.diff')])
+        if rc != 0:
+            rc, out = run(['git', '-C', wt, 'apply', '--3way', os.path.join(src, 'patch.diff')])
         res['patch_applies'] = rc == 0
         if rc != 0:
             res['error'] = out[-400:]
@@ -55,9 +58,10 @@ def main():
         res['check_on_repo'] = {'exit': rc}
         dst = os.path.join(VERIF, 'seeded', pid, var)
         os.makedirs(dst, exist_ok=True)
-        shutil.copy(os.path.join(src, 'patch.diff'), dst)
-        if os.path.exists(os.path.join(src, 'equiv.py')):
-            shutil.copy(os.path.join(src, 'equiv.py'), dst)
+        if os.path.abspath(dst) != src:
+            shutil.copy(os.path.join(src, 'patch.diff'), dst)
+            if os.path.exists(os.path.join(src, 'equiv.py')):
+                shutil.copy(os.path.join(src, 'equiv.py'), dst)
         meta = {}
         if os.path.exists(os.path.join(src, 'meta.json')):
             try:
